@@ -71,15 +71,24 @@ fn history(seed: u64, use_all: bool) -> Result<(), String> {
     }
     if got != ts { return Err(format!("delivered {got:?}, sent {ts:?}")); }
     // undecodable data is discarded and a telegram arriving afterwards is received correctly
-    phy.rx.extend_from_slice(&[0x00, 0x13, 0x37]);
+    // the garbage is any byte string that the real decoder rejects at once; bytes with start-delimiter values inside or at
+    // the end of it are part of the garbage (nothing of it may stay behind and fuse with the telegram that follows)
+    let mut garbage: Vec<u8> = vec![0x00, 0x13, 0x37];
+    if lcg(&mut s) % 4 != 0 {
+        let n = 1 + (lcg(&mut s) % 6) as usize;
+        let cand: Vec<u8> = (0..n).map(|i| { let r = lcg(&mut s);
+            if i == 0 { [0x00u8, 0x13, 0xff, 0x16, 0x7e][(r % 5) as usize] } else { [0x10u8, 0x68, 0xa2, 0xdc, 0xe5, (r >> 8) as u8, 0x02, 0x16][(r % 8) as usize] } }).collect();
+        if matches!(Telegram::deserialize(&cand), Some(Err(_))) { garbage = cand; }
+    }
+    phy.rx.extend_from_slice(&garbage);
     let mut n = 0;
     if use_all { let _ = phy.receive_all_telegrams(Instant::ZERO, |_t, _l| { n += 1; }); } else { let _ = phy.receive_telegram(Instant::ZERO, |_t| { n += 1; }); }
-    if n != 0 || !phy.rx.is_empty() { return Err(format!("garbage not discarded: {} callbacks, {} bytes left", n, phy.rx.len())); }
+    if n != 0 || !phy.rx.is_empty() { return Err(format!("garbage {garbage:02x?} not discarded: {} callbacks, {} bytes left", n, phy.rx.len())); }
     let t = any_t(&mut s);
     phy.rx.extend_from_slice(&encode(&t));
     let mut after = vec![];
     if use_all { let _ = phy.receive_all_telegrams(Instant::ZERO, |t, _l| { after.push(view(&t)); }); } else { let _ = phy.receive_telegram(Instant::ZERO, |t| { after.push(view(&t)); }); }
-    if after != vec![t.clone()] { return Err(format!("after discarded garbage: delivered {after:?}, sent {t:?}")); }
+    if after != vec![t.clone()] { return Err(format!("after discarded garbage {garbage:02x?}: delivered {after:?}, sent {t:?}")); }
     Ok(())
 }
 
